@@ -589,6 +589,11 @@ def rule_S3b(repo: Repo) -> RuleResult:
             if not (c and c[0] == "self" and len(c) == 2):
                 continue
             n += 1
+            if isinstance(v, ast.Name):       # a local of the arm stands for its single definition
+                ds_ = [s_.value for s_ in arm.body if isinstance(s_, ast.Assign) and len(s_.targets) == 1
+                       and isinstance(s_.targets[0], ast.Name) and s_.targets[0].id == v.id]
+                if len(ds_) == 1:
+                    v = ds_[0]
             construct = f"{norm(t)} = {norm(v)}"
             vc = attr_chain(v)
             if vc and vc[0] == src and len(vc) == 2 and vc[1].lstrip("_") == c[1].lstrip("_"):
